@@ -135,8 +135,16 @@ DriftFailures(t) ==
 B3Drift(t) ==
   {f \in {[id |-> t.id, at |-> j, clause |->
              IF ~("b3" \in DOMAIN t.evs[j] /\ t.evs[j].b3) \/ t.evs[j].exc # "none" THEN "ok"
-             ELSE LET k == Cardinality({e \in 1..j : t.evs[e].op = "drain" /\ t.evs[e].qi = t.evs[j].qi})
-                      m == MechRowSeq3(t.qs[t.evs[j].qi], t.W, k)
+             ELSE LET qi == t.evs[j].qi
+                      \* an evaluation that did not run to completion (abandoned, aborted by an exception) clears the
+                      \* caches of its query: the count of cached evaluations starts again after it
+                      Unfinished(e) == \/ t.evs[e].op = "partial" /\ Len(t.evs[e].rows) = t.evs[e].k    \* stopped before exhaustion
+                                       \/ t.evs[e].op = "raised" /\ t.evs[e].exc # "none"
+                      Evaluation(e) == t.evs[e].op \in {"drain", "partial", "raised"} /\ t.evs[e].qi = qi
+                      cut == {e \in 1..j : Evaluation(e) /\ Unfinished(e)}
+                      from == IF cut = {} THEN 0 ELSE CHOOSE e \in cut : \A e2 \in cut : e2 <= e
+                      k == Cardinality({e \in (from + 1)..j : Evaluation(e)})
+                      m == MechRowSeq3(t.qs[qi], t.W, k)
                       rows == t.evs[j].rows
                       r == RowSeq(t.qs[t.evs[j].qi], t.W)
                   IN IF B3Judge = "sem"
